@@ -320,7 +320,7 @@ pub fn slices(g: &Grammar) -> Vec<(&'static str, Grammar)> {
         ("mixed-arithmetic", g.restrict(&[K::Identifier, K::LeftParen, K::RightParen, K::Plus, K::Asterisk, K::Minus], &["let", "non_dependent_pi"])),
         ("let-groups", g.restrict(&[K::Identifier, K::IntegerLiteral, K::LeftParen, K::RightParen, K::Equals, K::Semicolon, K::Colon], &["annotated_lambda", "pi", "application"])),
         ("binders", g.restrict(&[K::Identifier, K::Type, K::LeftParen, K::RightParen, K::LeftCurly, K::RightCurly, K::Colon, K::ThickArrow, K::ThinArrow], &["let", "application"])),
-        ("let-in-binder-domain", g.restrict(&[K::Identifier, K::LeftParen, K::RightParen, K::Colon, K::Equals, K::Semicolon, K::ThickArrow, K::ThinArrow], &["application", "non_dependent_pi", "lambda"])),
+        ("let-in-binder-domain", g.restrict(&[K::Identifier, K::LeftParen, K::RightParen, K::LeftCurly, K::RightCurly, K::Colon, K::Equals, K::Semicolon, K::ThickArrow, K::ThinArrow], &["application", "non_dependent_pi", "lambda"])),
         // every comparison operator over arithmetic operands (the class alphabet has only `<` and `==`)
         (
             "comparisons",
